@@ -145,6 +145,13 @@ Example C17_ismember_example :
   tt_ismember_rows [[4; 6]; [1; 9]; [2; 6]] [[2; 6]; [2; 1]; [4; 6]; [2; 6]] = Ok ([true; false; true], [2; -1; 3]).
 Proof. reflexivity. Qed.
 
+(* the same for ALL arguments, operands without rows included: flags = membership, locations = last occurrence or -1
+   (loc T r = position of the last occurrence of r in T, -1 if absent: C17_dedup_reading below, RowsProofs.find_last_spec) *)
+Theorem C17_ismember_all : forall S T : mat, okw S -> okw T ->
+  tt_ismember_rows S T = Ok (map (inrows T) S, map (loc T) S).
+Proof. exact tt_ismember_rows_okw. Qed.
+Print Assumptions C17_ismember_all.
+
 (* Khatri-Rao product = column-wise Kronecker product, first argument slowest (any commutative ring) *)
 Theorem C17_khatrirao : forall (V : Type) (v0 v1 : V) (vadd vmul vsub : V -> V -> V) (vopp : V -> V),
   ring_theory v0 v1 vadd vmul vsub vopp (@eq V) ->
